@@ -33,7 +33,8 @@ RULE = ("job = seed -> scenario (version x flavour x options) x victim role; "
         "own detections preceded by a fatal alert.  distinct = "
         "digest(scenario, victim, mutation); non-trivial = mutation emitted "
         "and the victim processed it"
-        ' closeSocket=False dimension; every record the victim produced (incl. its alert) must be on the wire when its call raises; compressed-certificate bombs also declare lengths 0 and 1.')
+        ' closeSocket=False dimension; every record the victim produced (incl. its alert) must be on the wire when its call raises; compressed-certificate bombs also declare lengths 0 and 1.'
+        ' Well-formed SSLv2-compatible ClientHello with boundary challenge lengths.')
 LEVEL_TEXT = ("Seeded mutation search at every message index of the drawn "
               "flavours, both roles, with deterministic work and memory "
               "meters.  Sampling; the byzantine encoder is tlslite's own.")
